@@ -366,11 +366,23 @@ package channel
 // ---- C01: what is done to the output before it is returned ------------------------------------------------------------------
 // trailing spaces are trimmed per line, then (when asked) the prompt pattern is removed, then surrounding return
 // characters and newlines; the library functions are uninterpreted, the clause fixes which is applied to what, in which order
+// trimEach(ls): every line of ls without its trailing spaces; cleaned(b): b with every line so trimmed
+//@ spec trimEach(ls [][]byte) [][]byte
+//@ axiom #trimEach-len forall ls [][]byte :: {trimEach(ls)} len(trimEach(ls)) == len(ls)
+//@ axiom #trimEach-at forall ls [][]byte, k int :: {trimEach(ls)[k]} 0 <= k && k < len(ls) ==> trimEach(ls)[k] == trimRightSet(ls[k], " ")
+//@ spec cleaned(b []byte) []byte := joinB(trimEach(splitB(b, "\n")), "\n")
 //@ func (*Channel).processOut [C01]
 //@   modifies alloc()
+//@   ensures #lines-trimmed-then-prompt-stripped-then-surrounding-returns-and-newlines result == trimSet(trimSet((strip ? reReplaceAll(c.PromptPattern, cleaned(b), "") : cleaned(b)), c.ReturnChar), "\n")
+// the same, step by step at the library calls (required calls: a step that is dropped, or applied to something else -
+// e.g. the prompt removed before the lines are trimmed - fails here even when the loop has been rewritten)
+//@   at call! Split#1 assert #the-output-is-cut-into-lines arg0 === old(b) && arg1 == "\n"
+//@   at call! Join#1 assert #every-line-without-its-trailing-spaces-joined-again arg0 === trimEach(splitB(old(b), "\n")) && arg1 == "\n"
+//@   at call! ReplaceAll#1 assert #the-prompt-is-removed-from-the-output-whose-lines-were-trimmed arg0 == cleaned(old(b)) && len(arg1) == 0
+//@   at call! Trim#1 assert #surrounding-return-characters-go-after-the-prompt arg0 == (strip ? reReplaceAll(c.PromptPattern, cleaned(old(b)), "") : cleaned(old(b))) && arg1 == c.ReturnChar
+//@   at call! Trim#2 assert #surrounding-newlines-go-last arg0 == trimSet((strip ? reReplaceAll(c.PromptPattern, cleaned(old(b)), "") : cleaned(old(b))), c.ReturnChar) && arg1 == "\n"
 //@   loop 1 invariant rangeindex < len(lines) && len(cleanLines) == len(lines) && lines === splitB(old(b), "\n") && b == old(b)
 //@   loop 1 invariant #every-line-loses-its-trailing-spaces forall k int :: 0 <= k && k <= rangeindex ==> cleanLines[k] == trimRightSet(lines[k], " ")
-//@   at return assert #lines-trimmed-then-prompt-stripped-then-surrounding-returns-and-newlines lines === splitB(old(b), "\n") && len(cleanLines) == len(lines) && (forall k int :: 0 <= k && k < len(lines) ==> cleanLines[k] == trimRightSet(lines[k], " ")) && result === trimSet(trimSet((strip ? reReplaceAll(c.PromptPattern, joinB(cleanLines, "\n"), "") : joinB(cleanLines, "\n")), c.ReturnChar), "\n")
 
 // ---- C19: the channel constructor: documented defaults, then every option in order ------------------------------------------
 //@ func NewChannel [C19]
